@@ -37,7 +37,7 @@ PROJECTION = {
 
 
 # property theorem modules (filled in as proofs land)
-PROP_MODS = {p: f"GgrsModel.Properties.{p}" for p in ["C03", "C04", "C06", "C07", "C08", "C11", "C12", "C15", "C16", "C18"]}
+PROP_MODS = {f"C{i:02d}": f"GgrsModel.Properties.C{i:02d}" for i in range(1, 19)}
 
 
 def in_projection(prop, cls):
